@@ -11,3 +11,7 @@ Definition marks_doc_key_current : bool := true.
 Definition max_monotone_current : bool := true.
 (** base_store.go LoadFromSnapshot recomputes progress after its join (true); false = pinned. *)
 Definition snapshot_progress_current : bool := true.
+
+(** pubsub/oneonone/channel.go monitorTopic forwards only messages published by the
+    channel's peer (true); false = the pinned commit (everything but own messages). *)
+Definition oneonone_filters_sender_current : bool := true.
